@@ -582,8 +582,7 @@ theorem naiveMulRows_spec (b as : List F) (i : Nat) (res : List F)
       rcases Nat.lt_trichotomy k i with hk | hk | hk
       · have h1 : ¬ (i + 1 ≤ k) := by omega
         have h2 : ¬ (i ≤ k) := by omega
-        have h3 : ¬ (i + 0 ≤ k) := by omega
-        simp only [h1, h2, h3, if_false, add_zero]
+        simp only [h1, h2, if_false, add_zero]
       · subst hk
         simp [conv_cons_zero]
       · have h1 : i + 1 ≤ k := by omega
@@ -673,5 +672,138 @@ theorem mulDD_eq_naiveMul (ta : Nat) {a b : List F} (ha : Canon a) (hb : Canon b
   rw [hr, hs, hcr.ext hcs (fun i => by rw [hr', hs'])]
 
 end Mul
+
+/-! ## 7. division with remainder -/
+
+section Div
+variable {F : Type} [Field F] [DecidableEq F]
+
+theorem getLast?_eq_coeff {p : List F} (h : p ≠ []) :
+    p.getLast? = some (coeff p (p.length - 1)) := by
+  rw [List.getLast?_eq_getElem?]
+  have hl : p.length - 1 < p.length := by
+    cases p with
+    | nil => exact absurd rfl h
+    | cons c cs => simp
+  rw [coeff_of_lt hl, List.getElem?_eq_getElem hl]
+
+theorem convF_add_left (f f' g : Nat → F) (k : Nat) :
+    convF (fun i => f i + f' i) g k = convF f g k + convF f' g k := by
+  unfold convF
+  rw [← Finset.sum_add_distrib]
+  exact Finset.sum_congr rfl (fun i _ => by ring)
+
+theorem convF_single (g : Nat → F) (d : Nat) (x : F) (k : Nat) :
+    convF (fun i => if i = d then x else 0) g k = if d ≤ k then x * g (k - d) else 0 := by
+  unfold convF
+  simp only [ite_mul, zero_mul]
+  rw [Finset.sum_ite_eq']
+  simp only [Finset.mem_range, Nat.lt_succ_iff]
+
+theorem convF_update (f f' g : Nat → F) (d : Nat) (x : F)
+    (hf' : ∀ i, f' i = f i + if i = d then x else 0) (k : Nat) :
+    convF f' g k = convF f g k + if d ≤ k then x * g (k - d) else 0 := by
+  have : f' = fun i => f i + (fun i => if i = d then x else 0) i := funext hf'
+  rw [this, convF_add_left, convF_single]
+
+/-- the `for (i, c) in divisor` loop of `divide_with_q_and_r` on a dense divisor:
+    `r -= cq · X^qd · b` -/
+theorem foldTerms_sub_spec (cq : F) (qd : Nat) (bs : List F) (j : Nat) (r : List F)
+    (h : qd + j + bs.length ≤ r.length) :
+    ∃ r', foldTerms (fun (r : List F) (t : Nat × F) => modifyAt (fun c => c - cq * t.2) r (qd + t.1))
+        (enumFrom bs j) r = .ok r' ∧ r'.length = r.length ∧
+      ∀ k, coeff r' k = coeff r k - (if qd + j ≤ k then cq * coeff bs (k - (qd + j)) else 0) := by
+  induction bs generalizing j r with
+  | nil => exact ⟨r, rfl, rfl, fun k => by simp⟩
+  | cons bj bs ih =>
+    simp only [List.length_cons] at h
+    obtain ⟨r1, h1, hl1, hc1⟩ := modifyAt_spec (fun c => c - cq * bj) r (qd + j) (by omega)
+    obtain ⟨r2, h2, hl2, hc2⟩ := ih (j + 1) r1 (by omega)
+    refine ⟨r2, ?_, by omega, fun k => ?_⟩
+    · simp only [enumFrom, foldTerms, h1, h2]
+    · rw [hc2 k, hc1 k]
+      rcases Nat.lt_trichotomy k (qd + j) with hk | hk | hk
+      · have h1 : ¬ (qd + (j + 1) ≤ k) := by omega
+        have h2 : ¬ (qd + j ≤ k) := by omega
+        have h3 : k ≠ qd + j := by omega
+        simp only [h1, h2, h3, if_false]
+      · have h1 : ¬ (qd + (j + 1) ≤ k) := by omega
+        subst hk
+        simp
+      · have h1 : qd + (j + 1) ≤ k := by omega
+        have h2 : qd + j ≤ k := by omega
+        have h3 : k ≠ qd + j := by omega
+        have h4 : k - (qd + j) = (k - (qd + (j + 1))) + 1 := by omega
+        simp only [h1, h2, h3, if_true, if_false, h4, coeff_cons_succ]
+
+/-- the `while` loop of `divide_with_q_and_r` (dense divisor): invariant `a = q·b + r`, the
+    positions of `q` not yet written are zero, the remainder gets strictly shorter -/
+theorem divLoop_spec (a b : List F) (hbne : b ≠ []) (inv : F)
+    (hinv : coeff b (b.length - 1) * inv = 1) (Q : Nat) :
+    ∀ (fuel : Nat) (q r : List F), Canon r → r.length < fuel → q.length = Q →
+      r.length ≤ b.length - 1 + Q →
+      (∀ j, j + b.length ≤ r.length → coeff q j = 0) →
+      (∀ k, coeff a k = conv q b k + coeff r k) →
+      ∃ q' r', divLoop (b.length - 1) inv (enumFrom b 0) fuel q r = .ok (q', r') ∧ Canon r' ∧
+        (∀ k, coeff a k = conv q' b k + coeff r' k) ∧ (r' = [] ∨ r'.length < b.length) := by
+  have hblen : 0 < b.length := List.length_pos_iff.2 hbne
+  intro fuel
+  induction fuel with
+  | zero => intro q r _ h; exact absurd h (by omega)
+  | succ fuel ih =>
+    intro q r hr hfuel hq hrQ hq0 hinvt
+    rw [divLoop]
+    by_cases hz : isZero r = true
+    · rw [if_pos hz]
+      exact ⟨q, r, rfl, hr, hinvt, Or.inl (hr.isZero_iff.1 hz)⟩
+    rw [if_neg hz, degree_of_canon hr]
+    have hrlen : 0 < r.length := Canon.length_pos_of_not_isZero hz
+    have hrne : r ≠ [] := List.length_pos_iff.1 hrlen
+    simp only [ok_bind]
+    by_cases hlt : r.length - 1 < b.length - 1
+    · rw [if_pos hlt]
+      exact ⟨q, r, rfl, hr, hinvt, Or.inr (by omega)⟩
+    rw [if_neg hlt, getLast?_eq_coeff hrne]
+    simp only
+    -- the step
+    obtain ⟨q1, hq1, hlq1, hcq1⟩ := modifyAt_spec
+      (fun _ => coeff r (r.length - 1) * inv) q (r.length - 1 - (b.length - 1)) (by omega)
+    obtain ⟨r1, hr1, hlr1, hcr1⟩ := foldTerms_sub_spec (coeff r (r.length - 1) * inv)
+      (r.length - 1 - (b.length - 1)) b 0 r (by omega)
+    have hlen1 : (truncate r1).length ≤ r.length - 1 := by
+      apply length_truncate_le
+      intro i hi
+      rcases Nat.lt_or_ge i r.length with hi' | hi'
+      · have hie : i = r.length - 1 := by omega
+        rw [hcr1 i]
+        have h1 : r.length - 1 - (b.length - 1) + 0 ≤ i := by omega
+        have h2 : i - (r.length - 1 - (b.length - 1) + 0) = b.length - 1 := by omega
+        rw [if_pos h1, h2, hie, mul_assoc, mul_comm inv, hinv, mul_one, sub_self]
+      · exact coeff_of_le (by omega)
+    obtain ⟨q', r', hres, hcr', hinv', hdeg'⟩ := ih q1 (truncate r1) (canon_truncate _) (by omega)
+      (by omega) (by omega)
+      (fun j hj => by
+        rw [hcq1 j, if_neg (by omega)]
+        exact hq0 j (by omega))
+      (fun k => by
+        have hq0' : coeff q (r.length - 1 - (b.length - 1)) = 0 := hq0 _ (by omega)
+        have hupd : ∀ i, coeff q1 i = coeff q i +
+            if i = r.length - 1 - (b.length - 1) then coeff r (r.length - 1) * inv else 0 := by
+          intro i
+          rw [hcq1 i]
+          by_cases hi : i = r.length - 1 - (b.length - 1)
+          · rw [if_pos hi, if_pos hi, hi, hq0', zero_add]
+          · rw [if_neg hi, if_neg hi, add_zero]
+        have hconv : conv q1 b k = conv q b k +
+            if r.length - 1 - (b.length - 1) ≤ k then
+              coeff r (r.length - 1) * inv * coeff b (k - (r.length - 1 - (b.length - 1))) else 0 :=
+          convF_update (coeff q) (coeff q1) (coeff b) _ _ hupd k
+        rw [hinvt k, hconv, coeff_truncate, hcr1 k]
+        simp only [Nat.add_zero]
+        ring)
+    refine ⟨q', r', ?_, hcr', hinv', hdeg'⟩
+    simp only [degree_of_canon hr, ok_bind, hq1, hr1, hres]
+
+end Div
 
 end Ark.Poly.A
